@@ -371,6 +371,35 @@ async fn run_task(
         .into();
     let cancel_rx = handle.cancel_tx.subscribe();
 
+    // A task stream always opens with its spawn frame, also when the request is refused below
+    // (the limits shown are then the configured defaults).
+    let parsed: Result<ShellArgs, serde_json::Error> = serde_json::from_value(payload.args.clone());
+    let parsed_args = parsed.as_ref().ok();
+    let artifact_max_bytes = parsed_args
+        .and_then(|args| args.artifact_max_bytes)
+        .unwrap_or(config.artifact_max_bytes);
+    let max_bytes = parsed_args
+        .and_then(|args| args.max_bytes)
+        .unwrap_or(config.max_bytes);
+
+    let spawn_time_ms = now_ms();
+    emitter
+        .emit(EventKind::ToolTaskSpawned {
+            task_id: handle.task_id.clone(),
+            tool_name: payload.tool.clone(),
+            args: payload.args.clone(),
+            cwd: parsed_args.and_then(|args| args.cwd.clone()),
+            title: payload.title.clone(),
+            execution_mode,
+            origin_session_id: payload.origin_session_id.clone(),
+            artifacts: Some(json!({
+                "logs": handle.logs.refs_json(),
+                "artifact_max_bytes": artifact_max_bytes,
+                "max_bytes": max_bytes,
+            })),
+        })
+        .await;
+
     if payload.tool != "bash" && payload.tool != "shell" {
         fail_task(
             &handle,
@@ -382,7 +411,7 @@ async fn run_task(
         return;
     }
 
-    let args: ShellArgs = match serde_json::from_value(payload.args.clone()) {
+    let args: ShellArgs = match parsed {
         Ok(args) => args,
         Err(err) => {
             fail_task(&handle, &emitter, format!("invalid args: {err}")).await;
@@ -390,9 +419,6 @@ async fn run_task(
             return;
         }
     };
-
-    let artifact_max_bytes = args.artifact_max_bytes.unwrap_or(config.artifact_max_bytes);
-    let max_bytes = args.max_bytes.unwrap_or(config.max_bytes);
 
     if tokio::fs::create_dir_all(config.artifacts_blobs_dir())
         .await
@@ -407,24 +433,6 @@ async fn run_task(
         finalize_snapshot(&handle, &snapshot_dir).await;
         return;
     }
-
-    let spawn_time_ms = now_ms();
-    emitter
-        .emit(EventKind::ToolTaskSpawned {
-            task_id: handle.task_id.clone(),
-            tool_name: payload.tool.clone(),
-            args: payload.args.clone(),
-            cwd: args.cwd.clone(),
-            title: payload.title.clone(),
-            execution_mode,
-            origin_session_id: payload.origin_session_id.clone(),
-            artifacts: Some(json!({
-                "logs": handle.logs.refs_json(),
-                "artifact_max_bytes": artifact_max_bytes,
-                "max_bytes": max_bytes,
-            })),
-        })
-        .await;
 
     #[cfg(rip_verif)]
     rip_kernel::verif::point("ws.task.before_acquire");
